@@ -66,7 +66,13 @@ DEF_FUNCS = {
     "_save": ("any",),
     "_load_from_resource": ("root",),
     "_save_to_resource": ("root",),
+    "_to_base": ("any",),
+    "_update": ("any",),
+    "_from_base": ("any",),
 }
+
+
+NOT_YET = {"list": ("_update",)}     # SyncedList._update: invariant not written yet (bounded stand-in, see C02 evidence)
 
 
 def run_task(eng, prover, task, out):
@@ -78,6 +84,8 @@ def run_task(eng, prover, task, out):
         fam = scn.family(eng, s.cls)
         api.type_facts(eng, st, set([s.cls, s.rootcls, fam[0], fam[1]]))
         if DEF_FUNCS.get(fname, ("any",))[0] == "root" and task["role"] != "root":
+            continue
+        if fname in NOT_YET.get(scn.kind_of_class(eng, P.classes[task["cname"]]), ()):
             continue
         r = P.lookup_method(s.cls, fname)
         if r is None or isinstance(r, tuple):
@@ -94,6 +102,18 @@ def run_task(eng, prover, task, out):
             t = smt.fresh("arg_data")
             st.assume(z3.Not(smt.is_VRef(t)))
             args.append(Z(t, None, {"plain": True}))
+        if fname == "_update":
+            t = smt.fresh("arg_data")
+            st.assume(z3.Not(smt.is_VRef(t)))
+            args.append(Z(t, None, {"plain": True}))
+            args.append(Z(smt.VBool(smt.fresh("arg_validated", smt.BoolS)), None, {"plain": True}))
+        kwargs = {}
+        if fname == "_from_base":
+            from pyvc.values import ClassV
+            t = smt.fresh("arg_data")
+            st.assume(z3.Not(smt.is_VRef(t)))
+            args = [ClassV(s.cls), Z(t, None, {"plain": True})]
+            kwargs = {"parent": s.self_}
         assume = []
         if s.buffered and fname in ("_load", "_save"):
             # unbuffered mode; the buffered mode of these functions is verified under C05
@@ -101,7 +121,7 @@ def run_task(eng, prover, task, out):
                 if rec.tag.startswith("buffered:") or rec.tag.startswith("bufctx:"):
                     assume.append(as_int(rec.fields["_count"]) == 0)
         try:
-            n = verify_contract(eng, prover, pid, base, fi, contract, st, args, assume=assume)
+            n = verify_contract(eng, prover, pid, base, fi, contract, st, args, kwargs, assume=assume)
             out["paths"] += n
             out["functions"][fi.qualname] = fi.sha()
         except Unsupported as e:
